@@ -30,6 +30,8 @@ CONSTANTS
     StoreOf,      \* sequence: context instance -> storage id (shared() instances alias 0)
     InstKind,     \* sequence: how the instance is obtained: "new" | "shared" | "default" | "setup"
                   \* | "empty" (emit::Empty used as a Ctxt) | "none" (Option::<C>::None)
+                  \* | "tp" (emit_traceparent::TraceparentCtxt<ThreadLocalCtxt>, a wrapper with storage
+                  \*   of its own that forwards every frame operation to the wrapped context)
                   \* | "made" (ThreadLocalCtxt::new() / default() called DURING the program by one of
                   \*   its threads - action Make; every other kind exists before the program starts,
                   \*   constructed by the driver).  Where an instance is constructed is a placement of
@@ -38,7 +40,8 @@ CONSTANTS
                   \* (ThreadLocalCtxt::new(), ::shared(), ::default(), the context of a runtime
                   \* built by emit::setup()...init_slot(fresh slot)); only "shared" may alias
     NKeys,        \* property keys are 1..NKeys; a property map is a tuple, 0 = absent
-    PropChoices,  \* property maps offered to Open (keys are distinct by construction)
+    PropChoices,  \* property maps offered to Open (keys are distinct by construction); may contain the
+                  \* EMPTY map: a root frame of it hides everything, a pushed one changes nothing
     DupChoices,   \* property SETS WITH DUPLICATE KEYS offered to Open: sequences of <<key, value>> pairs.
                   \* Within one pushed set the first value of a key wins (C02); the set as a whole then
                   \* overlays the snapshot (push) or stands alone (root).  ({} = none offered)
